@@ -1271,8 +1271,9 @@ func c05Main(c *Ctx) {
 					break
 				}
 			}
-			c.Error("NONDETERMINISM: two executions of %s under %s differ in %s", c05HistString(ref), job.Cfg.key(), where)
-			continue
+			// not a harness error: the explored world is rebuilt from the same seed, so the difference
+			// comes from state of the implementation that outlives a proxy instance
+			c.Unstable("two executions of %s under %s differ in %s", c05HistString(ref), job.Cfg.key(), where)
 		}
 		s := &c05Search{c: c, cfg: job.Cfg, bd: job.Bd, confirmed: map[string]bool{}, local: map[string]int64{}}
 		t0, tr0 := time.Now(), c.Counters["transitions"]
